@@ -150,6 +150,32 @@ func (kf *kindFlow) refine(cond ssa.Value, cur KindSet) (t, f KindSet) {
 		}
 	case *ssa.Call:
 		key := core.CalleeKey(&x.Call)
+		// a package predicate applied to the subject's kind (isObjectKind(v.Kind())): evaluate it for every kind
+		if callee := x.Call.StaticCallee(); callee != nil && curCtx != nil && curCtx.P.InPkg(callee) && len(callee.Params) == 1 && len(x.Call.Args) == 1 {
+			if kc, ok := x.Call.Args[0].(*ssa.Call); ok && ((core.CalleeKey(&kc.Call) == "reflect.Value.Kind" && kf.subject(kc.Call.Args[0])) || (kc.Call.IsInvoke() && kc.Call.Method.Name() == "Kind" && kf.subject(kc.Call.Value))) {
+				var tset KindSet
+				okAll := true
+				for k := 0; k < nKinds; k++ {
+					res, ok := evalPureFn(callee, func(v ssa.Value) (constant.Value, bool) {
+						if v == callee.Params[0] {
+							return constant.MakeInt64(int64(k)), true
+						}
+						return nil, false
+					})
+					if !ok || res.Kind() != constant.Bool {
+						okAll = false
+						break
+					}
+					if constant.BoolVal(res) {
+						tset |= Kinds(k)
+					}
+				}
+				if okAll {
+					return cur & tset, cur &^ tset
+				}
+			}
+			return
+		}
 		if !strings.HasPrefix(key, "reflect.Value.") || len(x.Call.Args) == 0 || !kf.subject(x.Call.Args[0]) {
 			return
 		}
